@@ -102,12 +102,19 @@ func RunScripts(c *hlib.Ctx, tag string, scripts []Script) {
 			continue
 		}
 		exp := strings.Split(outs[i], " ## ")
+		if atomic.LoadInt64(&confirmedFailures) >= maxFindingsPerRun {
+			c.Count("script-not-run-after-findings")
+			continue
+		}
 		bad, got, want := sc.RunImpl(exp)
 		if bad >= 0 {
 			// an observation that never matched within the budget: run the script once more on a fresh
 			// stream; only a difference that shows again is reported (a starved goroutine is not a lost packet)
 			c.Count("script-rerun")
 			bad, got, want = sc.RunImpl(exp)
+			if bad >= 0 {
+				atomic.AddInt64(&confirmedFailures, 1)
+			}
 		}
 		nj, np, ns := 0, 0, 0
 		for _, o := range sc.Ops {
@@ -172,6 +179,19 @@ func RunScripts(c *hlib.Ctx, tag string, scripts []Script) {
 			kind, class := classify(got, want)
 			c.Find(hlib.Finding{Kind: kind, Class: class, Case: lines[i], Impl: trunc(got, 600), Model: trunc(want, 600), Spec: trunc(want, 600),
 				Detail: fmt.Sprintf("after op %d (%s)", bad, sc.Ops[bad])})
+			if kind == "corr" {
+				// model and implementation differ in something the property does not prescribe directly
+				// (queue length, drop flag): let the script run to its end without the model and ask the
+				// specification itself about what the consumers were delivered
+				names, joinedAt, detachedAt, delivered := sc.RunFree()
+				al := sc.AlignLine(tag, names, joinedAt, detachedAt, delivered)
+				if out := c.Drive([]string{al}); len(out) == 1 && strings.HasPrefix(out[0], "bad:") {
+					c.Find(hlib.Finding{Kind: "oracle", Class: "drop-not-aligned-to-key-frame-start", Case: lines[i], Impl: out[0],
+						Spec:   "of the packets published while a consumer was attached, the first one of every dropped run and the first one delivered after it both start a key frame",
+						Detail: "free run of the script judged by the Lean oracle dropAligned: " + trunc(al, 400)})
+				}
+				c.Count("script-free-run-judged-by-alignment-oracle")
+			}
 		}
 	}
 	c.CountN("script-demuxer-catch-up-lost", int(atomic.SwapInt64(&CatchUpLost, 0)))
